@@ -118,10 +118,19 @@ package node
 
 //@ import _state "github.com/mosaicnetworks/babble/src/node/state"
 
+//@ func (c *core) eventDiff(otherKnown map[uint32]int) (events []*hg.Event, err error)
+//@   requires c != nil && c.hg != nil
+//@   modifies hg.G_miss(c.hg.Store)
+//@   ensures[nonnil] err == nil ==> (forall k int :: 0 <= k && k < len(events) ==> events[k] != nil)
+//@   loop 1 modifies hg.G_miss(c.hg.Store)
+//@   loop 2 modifies hg.G_miss(c.hg.Store)
+//@   loop 1 invariant[nonnil] forall k int :: 0 <= k && k < len(unknown) ==> unknown[k] != nil
+//@   loop 2 invariant[nonnil] forall k int :: 0 <= k && k < len(unknown) ==> unknown[k] != nil
+
 //@ func (n *Node) processSyncRequest(rpc net.RPC, cmd *net.SyncRequest)
 //@   safety on
 //@   requires n != nil && n.core != nil && n.core.validator != nil && n.core.validator.Key != nil && n.core.hg != nil && n.conf != nil && cmd != nil
-//@   modifies hg.G_miss(n.core.hg.Store), anymap map[uint32]int
+//@   modifies hg.G_miss(n.core.hg.Store)
 
 //@ func (n *Node) processEagerSyncRequest(rpc net.RPC, cmd *net.EagerSyncRequest)
 //@   trusted handler body not verified here (it inserts events: covered by the contracts of ReadWireInfo / InsertEvent); only the gate in front of it is claimed
